@@ -36,7 +36,7 @@ prop('C01',
      level='other',
      units=[CF, F + 'shape.compute_shape_features', F + 'cyclepoints.compute_cyclepoints',
             'bycycle.burst.cycle.detect_bursts_cycles', 'bycycle.utils.dataframes.drop_samples_df'],
-     jobs=['pipeline:C01'],
+     jobs=['pipeline:C01', 'find_extrema', 'find_zerox'],
      unit_jobs={},
      trusted=[EXTERNAL['filter']],
      explanation='Proved (unbounded, for every signal satisfying osc3, every option combination in the typed cases): '
